@@ -5,7 +5,7 @@ import (
 )
 
 // Poison tokens: lexemes that are legal in no syntactic context of the model grammar.
-var Poison = []string{"]", "?|", "THEN", ")", "#>>", "END", "}"}
+var Poison = []string{"]", "?|", "THEN", ")", "#>>", "END", "["}
 
 // MutateToks returns a token-level corruption of toks and the index of the first changed token.
 // kinds: 0 delete, 1 duplicate, 2 replace by poison, 3 swap neighbours, 4 truncate after k, 5 insert poison
